@@ -31,7 +31,17 @@ import (
 	"time"
 )
 
-const repoDir = "/repo"
+// repoDir is the tree under test.  Every registered command uses /repo; the
+// VERIF_REPO override exists for background sweeps only, which run for hours
+// and must not pick up a seeded change that is applied to /repo for a few
+// minutes while another check is being tried against it (they point at a
+// clean clone of /repo's HEAD instead).
+var repoDir = func() string {
+	if d := os.Getenv("VERIF_REPO"); d != "" {
+		return d
+	}
+	return "/repo"
+}()
 
 // verifDir is the framework directory: the working directory when it holds a
 // MANIFEST.json (checks are run with cwd=/verif; background runs from a
